@@ -106,6 +106,31 @@ def _check_that_array_base_types_are_fixed_size(type_ir, source_file_name, error
         )
 
 
+def _check_that_field_location_can_be_non_negative(field, source_file_name, errors):
+    """Checks that a field's start and size are not always negative."""
+    if not field.has_field("location"):
+        return
+    for expression, name in (
+        (field.location.start, "start"),
+        (field.location.size, "size"),
+    ):
+        if expression.type.which_type != "integer":
+            continue
+        maximum = expression.type.integer.maximum_value
+        if maximum in ("infinity", "-infinity", "", None):
+            continue
+        if int(maximum) < 0:
+            errors.append(
+                [
+                    error.error(
+                        source_file_name,
+                        expression.source_location,
+                        "Field {} is always negative.".format(name),
+                    )
+                ]
+            )
+
+
 def _check_that_array_sizes_are_usable(type_ir, source_file_name, errors, ir):
     """Checks that array lengths are not negative and elements not zero-sized."""
     if (
@@ -865,6 +890,12 @@ def check_constraints(ir):
         ir,
         [ir_data.ArrayType],
         _check_that_array_sizes_are_usable,
+        parameters={"errors": errors},
+    )
+    traverse_ir.fast_traverse_ir_top_down(
+        ir,
+        [ir_data.Field],
+        _check_that_field_location_can_be_non_negative,
         parameters={"errors": errors},
     )
     traverse_ir.fast_traverse_ir_top_down(
